@@ -8,8 +8,11 @@ static cbor_item_t* pool[16];
 static int npool;
 
 static uint64_t bval(void) {
-  static const uint64_t bnd[] = {0, 1, 23, 24, 255, 256, 65535, 65536, 4294967295ull, 4294967296ull, ~0ull};
-  return vh_randn(3) ? bnd[vh_randn(11)] : vh_rand() >> vh_randn(64);
+  static const uint64_t bnd[] = {0, 1, 23, 24, 255, 256, 65535, 65536, 4294967295ull, 4294967296ull, ~0ull,
+                                 /* numbers with a registered meaning as tags (a library might be tempted to treat them specially): date/time, bignums,
+                                  * embedded CBOR, URI/base64/regex/MIME, the self-describe magic 55799 and its neighbours, the "invalid" ones */
+                                 2, 3, 4, 5, 21, 22, 32, 36, 55798, 55799, 55800, 65534, 4294967294ull, ~0ull - 1};
+  return vh_randn(3) ? bnd[vh_randn(sizeof bnd / sizeof *bnd)] : vh_rand() >> vh_randn(64);
 }
 static float half_value(void) {
   if (vg_wild_half && !vh_randn(3)) {
@@ -195,9 +198,10 @@ static cbor_item_t* build(int depth) {
       cbor_item_t* s = cbor_new_indefinite_string();
       if (!s) return NULL;
       size_t n = vh_randn(6) ? vh_randn(4) : vh_randn(13); /* now and then up to 12 entries: every capacity step 1,2,4,8,16 and the counts between */
-      static const char* parts[] = {"", "a", "bc", "\xc3\xa9", "xyz"};
+      /* (chunks may end inside a multi-byte character: libcbor does not validate text, and neither does it refuse such chunks) */
+      static const char* parts[] = {"", "a", "bc", "\xc3\xa9", "xyz", "a\xc3", "\xa9" "b", "\xe2\x82", "\xac", "\xf0\x9f", "\x98\x80!"};
       for (size_t i = 0; i < n; i++) {
-        cbor_item_t* c = cbor_build_string(parts[vh_randn(5)]);
+        cbor_item_t* c = cbor_build_string(parts[vh_randn(11)]);
         if (!c) break;
         (void)cbor_string_add_chunk(s, c);
         cbor_decref(&c);
@@ -329,6 +333,14 @@ size_t vg_encoding(unsigned char* b, size_t cap, int depth) {
       size_t c = vh_randn(4);
       b[n++] = k == 10 ? 0x5f : 0x7f;
       for (size_t i = 0; i < c; i++) {
+        if (k == 11 && !vh_randn(3)) { /* a character spread over two chunks, or cut off by the end of a chunk */
+          static const char* cut[] = {"a\xc3", "\xa9" "b", "\xe2\x82", "\xac", "\xf0\x9f", "\x98\x80"};
+          const char* t = cut[vh_randn(6)];
+          size_t tl = strlen(t);
+          n += put_head(b + n, 3, tl, rand_width(tl));
+          memcpy(b + n, t, tl); n += tl;
+          continue;
+        }
         size_t l = vh_randn(5);
         n += put_head(b + n, k == 10 ? 2 : 3, l, rand_width(l));
         for (size_t j = 0; j < l; j++) b[n++] = (unsigned char)('a' + vh_randn(26));
